@@ -217,3 +217,91 @@ def date_str(secs):
     from . import shim
     base = shim._real_datetime(2000, 1, 1)
     return (base + _dt.timedelta(seconds=secs)).strftime("%Y-%m-%dT%H:%M:%S")
+
+
+# ------------------------------------------------------------------ harness-written trash content
+
+class TrashWorld(object):
+    """Assemble a world whose trash directories are written by the harness.
+
+    entries: list of dict(tdir, name, orig, date, info, payload, kind, base) where orig is
+    the absolute original location the entry must be read as."""
+
+    def __init__(self, vols=(), home="/home/u", uid=1000, env=None):
+        self.vols = list(vols)
+        self.home = home
+        self.uid = uid
+        self.nodes = []
+        self.entries = []
+        self.env = dict(env or {"HOME": home})
+        self._names = {}
+
+    def home_trash(self):
+        return self.home + "/.local/share/Trash"
+
+    def top_trash(self, vol, which):
+        v = vol.rstrip("/")
+        return v + ("/.Trash/%d" % self.uid if which == "sticky" else "/.Trash-%d" % self.uid)
+
+    def ensure_tdir(self, tdir, base):
+        """create the (empty) skeleton of a trash dir; base None = home trash"""
+        if base is not None and "/.Trash/" in tdir:
+            self.nodes.append({"p": base.rstrip("/") + "/.Trash", "t": "d", "m": 0o1777})
+        self.nodes.append({"p": tdir, "t": "d", "m": 0o700})
+        self.nodes.append({"p": tdir + "/files", "t": "d", "m": 0o700})
+        self.nodes.append({"p": tdir + "/info", "t": "d", "m": 0o700})
+
+    def unique_name(self, tdir, base):
+        used = self._names.setdefault(tdir, set())
+        n, k = base, 0
+        while n in used:
+            k += 1
+            n = "%s_%d" % (base, k)
+        used.add(n)
+        return n
+
+    def add(self, tdir, base, orig, date, kind="file", content="payload", name=None,
+            link_to="nowhere", info_bytes=None, path_value=None, payload=True, mt=None):
+        from .oracle import make_info
+        from .sandbox import fsenc
+        self.ensure_tdir(tdir, base)
+        name = name or self.unique_name(tdir, orig.rstrip("/").rsplit("/", 1)[-1])
+        if path_value is None:
+            if base is None:
+                path_value = fsenc(orig)
+            else:
+                b = base.rstrip("/")
+                path_value = fsenc(orig[len(b) + 1:])
+        if info_bytes is None:
+            info_bytes = make_info(path_value, date)
+        ip = tdir + "/info/" + name + ".trashinfo"
+        pp = tdir + "/files/" + name
+        self.nodes.append({"p": ip, "t": "b", "b": list(info_bytes), "m": 0o600})
+        if payload:
+            if kind in ("file", "empty"):
+                n = {"p": pp, "t": "f", "c": content if kind == "file" else "", "m": 0o640}
+                if mt:
+                    n["mt"] = mt
+                self.nodes.append(n)
+            elif kind in ("dir", "tree"):
+                self.nodes.append({"p": pp, "t": "d", "m": 0o750})
+                self.nodes.append({"p": pp + "/inner", "t": "f", "c": content})
+                if kind == "tree":
+                    self.nodes.append({"p": pp + "/sub/deep", "t": "f", "c": "deep" + content})
+                    self.nodes.append({"p": pp + "/sub/lnk", "t": "l", "to": link_to})
+            elif kind.startswith("link"):
+                self.nodes.append({"p": pp, "t": "l", "to": link_to})
+        e = dict(tdir=tdir, name=name, orig=orig, date=date, info=ip, payload=pp if payload else None,
+                 kind=kind, base=base)
+        self.entries.append(e)
+        return e
+
+    def spec(self, cwd="/", now="2021-03-04T05:06:07", **kw):
+        s = {"vols": self.vols, "nodes": self.nodes, "env": self.env, "uid": self.uid,
+             "cwd": cwd, "now": now}
+        s.update(kw)
+        return s
+
+
+def list_line(e):
+    return "%s %s" % (e["date"].replace("T", " "), e["orig"])
